@@ -13,6 +13,7 @@ def run(ctx, replay=None):
                 "interdiffusivity with named boundary conditions (none, both solutes in either call order, one solute only), solutes listed as (B, C) and (C, B) (Relations.tla).")
     ctx.assumptions = ["phase-order comparisons use rtol 1e-9 (sums over phases are re-associated)"]
     pairs = [(a, b, perm, 1e-9, [], "phase-order/" + label) for (a, b, perm, label) in P.phase_order_pairs()]
+    pairs += [(a, b, None, 1e-9, [], label) for (a, b, label) in P.element_order_pairs()]
     judge_pairs(ctx, pairs, "phaseorder")
     # diffusion profiles with boundary conditions, solutes listed in both orders (scripted name-addressed interdiffusivity)
     from .. import c11_bc, traces as T
